@@ -120,6 +120,48 @@ type fieldStore struct {
 	Instr *ssa.Store
 	At    ssa.Instruction // where the store takes effect in the analysed function: the store itself, or the call of the constructor helper that performs it
 	Env   Env             // frame in which Val is to be rendered (helper parameters renamed to the caller's arguments)
+	Sel   string          // the store copies a whole struct value (Val): this entry stands for its field Sel
+}
+
+// fsPath renders what a field store installs.
+func (c *Ctx) fsPath(fs fieldStore) string {
+	if fs.Sel != "" {
+		return c.Path(fs.Val, fs.Env) + "." + fs.Sel
+	}
+	return c.Path(fs.Val, fs.Env)
+}
+
+// wholeCopies: stores of a whole struct value into the cell a (`x := *p`), as one entry per field — except the fields
+// that the same block assigns afterwards (straight-line initialisation: the copied value of those is gone).
+func wholeCopies(a *ssa.Alloc, explicit []fieldStore) []fieldStore {
+	var out []fieldStore
+	st, ok := derefT(a.Type()).Underlying().(*types.Struct)
+	if !ok || a.Referrers() == nil {
+		return nil
+	}
+	for _, r := range *a.Referrers() {
+		w, isS := r.(*ssa.Store)
+		if !isS || w.Addr != ssa.Value(a) {
+			continue
+		}
+		ld, isLd := w.Val.(*ssa.UnOp)
+		if !isLd || ld.Op != token.MUL {
+			continue
+		}
+		for i := 0; i < st.NumFields(); i++ {
+			name := st.Field(i).Name()
+			killed := false
+			for _, e := range explicit {
+				if e.Field == name && e.Instr != nil && e.Instr.Block() == w.Block() && instrBefore(w, e.Instr) {
+					killed = true
+				}
+			}
+			if !killed {
+				out = append(out, fieldStore{Field: name, Val: ld.X, Instr: w, At: w, Sel: name})
+			}
+		}
+	}
+	return out
 }
 
 // allocsOf returns allocations in f of struct type named (pointer allocations `&T{}` / new(T) / local T).
@@ -308,6 +350,11 @@ func mayFill(v ssa.Value, depth int) bool {
 				switch b.Name() {
 				case "len", "cap":
 					continue
+				case "append", "copy":
+					// the source operand is only read
+					if len(cm.Args) == 2 && cm.Args[0] != v {
+						continue
+					}
 				}
 				return true
 			}
@@ -1042,7 +1089,28 @@ func (c *Ctx) builtObjs(f *ssa.Function, named *types.Named) []*builtObj {
 func (c *Ctx) storesIntoObj(o *builtObj) []fieldStore {
 	var out []fieldStore
 	if a, ok := o.v.(*ssa.Alloc); ok {
-		return storesInto(a)
+		ex := storesInto(a)
+		ex = append(ex, wholeCopies(a, ex)...)
+		// stores made by an unexported helper that is handed the object (a tail of the function moved into a helper):
+		// they take effect at the call, values rendered in the caller's frame
+		for _, h := range c.objHelperCalls(o) {
+			p := h.g.Params[h.k]
+			if p.Referrers() == nil {
+				continue
+			}
+			for _, r := range *p.Referrers() {
+				fa, isFA := r.(*ssa.FieldAddr)
+				if !isFA {
+					continue
+				}
+				for _, rr := range *fa.Referrers() {
+					if st, isS := rr.(*ssa.Store); isS && st.Addr == ssa.Value(fa) {
+						ex = append(ex, fieldStore{Field: fieldName(p.Type(), fa.Field), Val: st.Val, Instr: st, At: h.call, Env: h.env})
+					}
+				}
+			}
+		}
+		return ex
 	}
 	for _, a := range o.inner {
 		for _, fs := range storesInto(a) {
@@ -1157,4 +1225,36 @@ func memberArgs(cl *ssa.Call) (list, wanted ssa.Value) {
 		return a[1], a[0]
 	}
 	return a[0], a[1]
+}
+
+// objHelper is a call that hands a built object to an unexported helper of the package.
+type objHelper struct {
+	call *ssa.Call
+	g    *ssa.Function
+	k    int // the parameter that receives the object
+	env  Env
+}
+
+func (c *Ctx) objHelperCalls(o *builtObj) []objHelper {
+	var out []objHelper
+	if o.v.Referrers() == nil {
+		return nil
+	}
+	f := o.v.(ssa.Instruction).Parent()
+	for _, r := range *o.v.Referrers() {
+		cl, ok := r.(*ssa.Call)
+		if !ok {
+			continue
+		}
+		g := cl.Call.StaticCallee()
+		if g == nil || !inModule(g) || g.Blocks == nil || pkgPathOf(g) != pkgPathOf(f) || g.Object() == nil || g.Object().Exported() {
+			continue
+		}
+		for i, a := range cl.Call.Args {
+			if a == o.v && i < len(g.Params) {
+				out = append(out, objHelper{cl, g, i, c.calleeEnv(&cl.Call, g, nil)})
+			}
+		}
+	}
+	return out
 }
